@@ -40,6 +40,10 @@ func checkC08(rep *Report, rng *Rng, tier string) {
 		var ops []Op
 		for _, o := range base {
 			ops = append(ops, o)
+			if g.FileBacked && o.K == "flush" && r.Chance(1, 5) {
+				// crash debris after the last root record (random bytes, a magic-like tail, zeros), then re-open
+				ops = append(ops, Op{K: "junk", N: 1 + r.Intn(70), Prio: int32(r.Intn(3000))})
+			}
 			if r.Chance(1, 9) {
 				k := 1
 				if r.Chance(1, 3) {
